@@ -59,6 +59,15 @@ def plan_blocking(length):
                 if w['timeout'] is not None:
                     yield ('adv', int(w['timeout'] * 1000) + rng.choice([1, 50, 1000]))
                     yield ('timeout', c)
+            elif parked and r < 0.70 and any(len(s.__dict__.get('parked_fields', {}).get(c, [])) > 3 for c in parked):
+                # turn an earlier key of a multi-key blocked consumer into a non-list, then feed a later key
+                c = next(c for c in parked if len(s.__dict__.get('parked_fields', {}).get(c, [])) > 3)
+                f = s.parked_fields[c]
+                p = rng.choice(producers)
+                if p not in s.in_multi and s.impl.socks[p]._db_num == s.impl.socks[c]._db_num:
+                    yield ('cmd', p, [b'set', f[1], b'str'])
+                    yield ('cmd', p, [b'rpush', f[-2], tok()])
+                    yield ('wake', c)
             else:
                 p = rng.choice(producers)
                 k = rng.random()
